@@ -430,7 +430,7 @@ pub fn run(ctx: &Ctx) {
          Duplicate oracle: per-file serialize() byte-equal, no shared objects, all invariants incl. membership hold in the duplicate, edits in either model leave the other's full snapshot (incl. per-file text) unchanged. Non-trivial: the copy / duplicate succeeded; distinct by call sequence.",
     );
     let known_open = |sig: &str| ctx.is_known_open(sig);
-    let cases = ctx.tier.pick(4_000u64, 120_000u64);
+    let cases = ctx.tier.pick(40_000u64, 400_000u64);
     let prep = vec![(op::NAMED, 8), (op::CREATE, 8), (op::SET_DATA, 6), (op::SET_REF, 4), (op::SET_ATTR, 10), (op::SET_COMMENT, 2), (op::MOVE, 2), (op::COPY, 2), (op::CREATE_FILE, 2), (op::ADD_TO_FILE, 3), (op::REMOVE_FROM_FILE, 1), (op::LOAD, 2), (op::RENAME, 2)];
     let fin = vec![(op::COPY, 6), (op::COPY_AT, 3), (op::COPY_X, 6), (op::DUPLICATE, 3)];
     let strat = (0u32..12, proptest::collection::vec(op_strategy(&prep), 0..12), op_strategy(&fin));
